@@ -34,7 +34,7 @@ FLOORS = {"quick": {"demux_packets": 8000, "fib_empty_table_cases": 150, "defaul
                        "hub_with_ports": 4000, "hub_without_ports": 4000, "splitter_packets": 16000, "fattree_built": 6000,
                        "fib_walks": 160000, "reverse_walks": 40000, "e2e_packets": 160000, "e2e_hops": 1000000,
                        "e2e_shared_class_runs": 2000, "e2e_SP": 600, "e2e_WFQ": 600, "e2e_DRR": 600, "e2e_VirtualClock": 600}}
-KEYS = tuple(FLOORS["quick"].keys()) + ("demux_reconfigurations",)
+KEYS = tuple(FLOORS["quick"].keys()) + ("demux_reconfigurations", "splitter_rewriting_receivers")
 
 
 def plan(tier):
@@ -274,10 +274,29 @@ def hub_case(rng, stats, bad):
     return n >= 3
 
 
+class Rewriter(Dev):
+    """a receiver that relabels what it gets, synchronously inside put() (e.g. a tagging tap)"""
+
+    def __init__(self, name):
+        Dev.__init__(self, name)
+        self.seen = []
+
+    def put(self, p):
+        self.seen.append(tuple(getattr(p, f) for f in vnet.FIELDS))
+        self.got.append(p)
+        p.flow_id = 900 + len(self.got)
+        p.size = 7
+        p.src = self.element_id
+
+
 def splitter_case(rng, stats, bad):
     from onl.netdev import Splitter, NSplitter
     n = rng.randint(2, 5)
     outs = [Dev(f"o{i}") if rng.random() < 0.85 else None for i in range(n)]
+    for i in range(1, n):
+        if outs[i] is not None and rng.random() < 0.4:
+            outs[i] = Rewriter(f"rw{i}")
+            stats["splitter_rewriting_receivers"] += 1
     if n == 2 and rng.random() < 0.5:
         sp = Splitter()
         sp.out1, sp.out2 = outs
@@ -288,8 +307,17 @@ def splitter_case(rng, stats, bad):
     for i in range(4):
         p = mkpkt(rng.randrange(5), src="x", pid=i, size=rng.choice([100, 200]))
         p.time = 1.5 + i
+        orig_fields = tuple(getattr(p, f) for f in vnet.FIELDS)
         sp.put(p)
         stats["splitter_packets"] += 1
+        if tuple(getattr(p, f) for f in vnet.FIELDS) != orig_fields:
+            bad("splitter-copy-not-independent", "a receiver changing its copy's header fields changed the original", None)
+            return False
+        for j, o in enumerate(outs):
+            if isinstance(o, Rewriter) and o.seen and o.seen[-1] != orig_fields:
+                bad("splitter-copy-carries-foreign-changes", "a splitter copy arrived with header fields another receiver had changed on its own copy",
+                    {"output": j, "arrived": o.seen[-1], "original": orig_fields})
+                return False
         for j, o in enumerate(outs):
             if o is None:
                 continue
@@ -306,6 +334,8 @@ def splitter_case(rng, stats, bad):
                     bad("splitter-copy-not-separate", "a secondary splitter output did not get its own separate copy", j)
                     return False
                 for f in vnet.FIELDS:
+                    if isinstance(o, Rewriter):
+                        break
                     if getattr(q, f) != getattr(p, f):
                         bad("splitter-copy-fields-differ", "a splitter copy's header fields differ from the original", f)
                         return False
